@@ -110,7 +110,7 @@ func TestCheck(t *testing.T) {
 	}
 	t0 := time.Now()
 	tier := "quick"
-	shards := 4
+	shards := 8
 	if run.Thorough() {
 		tier, shards = "thorough", 16
 	}
